@@ -30,7 +30,9 @@ RULE = ("seeded generator of relay histories: (a) copyTwoWayEx/copyTwoWay of the
         "the dial is faked (ok, or an error with a message of 1..2048 bytes), the response is written to the fake stream by the real WriteTCPResponse, then relay and teardown; "
         "the client half runs in package client: the real clientImpl.TCP / tcpConn.Read (fast open on/off, buffers of 1..32768 bytes) on a real loopback QUIC stream whose peer parses the "
         "request with the real reader and serves exactly the bytes the server half wrote (response frame ++ Down sink), whole or cut inside the frame / inside the data, in scripted write sizes, "
-        "ended by FIN or reset; both halves are joined into one case and evaluated against the composed model of model/C06_E2E.v (request phase over the script of the client stream, "
+        "ended by FIN or reset; read-deadline histories (half of these cases): the application polls with SetReadDeadline(20 / 150 ms) and retries a Read that timed out, "
+        "the peer holds back before the response (the first Read of a fast-open connection fails before the response has arrived), right behind it, or inside the data, until a Read has timed out "
+        "(never inside the response frame: see ASSUMPTIONS) - the bytes delivered to the application must still be exactly the bytes behind the response frame; both halves are joined into one case and evaluated against the composed model of model/C06_E2E.v (request phase over the script of the client stream, "
         "Reads of both loops against the scripts of their sources, response frame, stream_out, client_io); directed ones - a relay ends in one direction (EOF / error / veto / failed write) while its other direction is parked in "
         "Read, late bytes reach that Read between the return of the copy and the Close of the ends, and meanwhile 1-3 relays started after the return hold a "
         "chunk of either direction inside LogTraffic or a slow Write - and undirected ones (random relay histories started within 4 ms); every relay is judged "
@@ -39,7 +41,10 @@ RULE = ("seeded generator of relay histories: (a) copyTwoWayEx/copyTwoWay of the
         "against a scripted target; with fast open the client writes its first bytes the moment TCP() returns (before the server can have "
         "parsed the request), over several connections of one client; one-way uploads (TCP(); Write(payload) in chunks; Close(); no Read at all - with fast open "
         "the connection is closed before it ever became Established) with eager twins, a server-side dial that takes 0-300 ms (quick) / up to 1 s, payloads of 1 byte .. 200 KB, "
-        "judged when the server has closed the target connection: the target holds the whole payload. Non-trivial = bytes were forwarded in a direction and something other than a plain EOF ended the "
+        "judged when the server has closed the target connection: the target holds the whole payload; hooked requests (16 + 2 per quick run): a scripted RequestHook intercepts "
+        "(so the server answers ok BEFORE it dials), takes 0 / 1..3000 bytes of the client's payload off the stream and returns them as putback, rewrites the address or not, or aborts, "
+        "x dial ok / failed x fast open on / off: the target gets putback ++ relay = a prefix of what the client wrote, the application a prefix of what the target sent, "
+        "and when no target was connected (failed dial, abort) the application reads NO byte and its Reads end with EOF / an error, never data; those runs are also compared with the run of model/C06_Hook.v. Non-trivial = bytes were forwarded in a direction and something other than a plain EOF ended the "
         "relay, or both directions forwarded. Distinct = distinct JSON case.")
 ASSUMPTIONS = [
     "sinks obey the io.Writer contract (n < len(p) only with a non-nil error): copyBufferLog ignores the count (hypothesis wok of the prefix/accounting theorems; quic-go streams and net.Conn do)",
@@ -49,14 +54,19 @@ ASSUMPTIONS = [
     "(an error inside the frame region = the stream ended before the frame arrived; then the reader fails - observed by the cut-inside-the-frame cases, not proved), "
     "and the client's stream carries a prefix of what the server wrote (QUIC ordering); the older abstract-codec theorems (C06_client_view, "
     "C06_target_*_client_payload) are kept, with C06_request_reader_must_not_read_ahead showing their hypothesis is needed",
+    "a read deadline that expires INSIDE the response frame of a fast-open connection (some of its bytes consumed, not all) is outside the theorems and the generator: "
+    "tcpConn.Read then re-parses the response from the middle of the frame on the next Read (reported as a suspected defect, not encoded as expected behaviour); "
+    "C06_polling_client_reads_prefix covers deadlines expiring before the first byte of the response and anywhere behind it",
     "a dial error message longer than MaxMessageLength (2048) bytes is outside C06_dial_error_end_to_end: the client rejects such a response as a protocol error",
-    "no request hook intercepts the connection (as in the property text); EventLogger/TraceStream calls are not modelled",
+    "the accounting clause is about connections no request hook intercepts (as in the property text): the bytes a hook puts back reach the target outside LogTraffic; "
+    "C06_hooked_target_prefix assumes the target accepted the whole putback (handleTCPRequest ignores the result of that Write); what a hook does with the stream "
+    "(how much it reads, whether what it returns as putback is what it read) is the environment's choice; EventLogger/TraceStream calls are not modelled",
 ]
 TRUSTED = ["modelled rather than verified: core/server/copy.go, the hook-less path of handleTCPRequest (server.go:271-343), client.go TCP()/tcpConn.Read "
            "(hand transcription in coq/model/C06_Relay.v); level (a) transcribes the three teardown lines of server.go:338-342 and the two request-phase calls (server.go:246 quicvarint.Read of "
            "the frame type, server.go:276 protocol.ReadTCPRequest; the callee is the real one) in the harness; "
            "level (b) runs the real handleTCPRequest/client.TCP end to end but is judged by the harness verdict only (its runs are not replayed "
-           "against the LTS)",
+           "against the LTS), except hooked requests that end without a relay (corr case CHookFail: the model's run of model/C06_Hook.v, the whole stream then FIN, client_io)",
            "end-to-end class of level (a): server.go:306-323 (failure response + Close, or the success response) transcribed in the harness around the real WriteTCPResponse; "
            "the client half uses the real TCP()/tcpConn.Read on a clientImpl built from a raw quic-go connection (no hysteria handshake), its peer is a raw quic-go listener; "
            "the chunking a real QUIC stream presents is not controlled, the model is evaluated on one two-chunk script of the same bytes (the outcome is chunking-independent by C06_client_view_real); "
@@ -208,6 +218,15 @@ def gen_e2e(rng):
     c["cli"] = {"fo": rng.random() < 0.5, "cutk": "all" if r < 0.6 else ("frame" if r < 0.8 else "data"), "cutr": rng.random(),
                 "chunks": rng.choice([[], [1], [7], [1, 5, 1000], [rng.randrange(1, 3000)], [40000]]),
                 "end": "fin" if rng.random() < 0.85 else "reset", "bsz": rng.choice([1, 7, 100, 4096, 32768]), "splitr": rng.random()}
+    # read-deadline histories (half of the cases): the application polls with a short read deadline and retries; the peer holds
+    # back - before the response ("pre": the first Read(s) of a fast-open connection fail before the response has arrived), right
+    # behind the response ("post"), inside the data ("data") - until a Read has timed out
+    if rng.random() < 0.5:
+        pk = rng.choice([["pre"], ["pre"], ["pre", "post"], ["pre", "data"], ["post"], ["data"], ["pre", "post", "data"]])
+        c["cli"].update({"pk": pk, "end": "fin", "chunks": rng.choice([[], [], [1000], [40000]]),
+                         "cutk": "all" if rng.random() < 0.8 else "data"})
+        if "pre" in pk and rng.random() < 0.8:
+            c["cli"]["fo"] = True
     return c
 
 
@@ -361,7 +380,25 @@ def e2e_cases(rng, tier):
                      close_delay=rng.choice([0, 0, 20])))
     cs.append(mk(fastopen=True, logger=rng.random() < 0.5, no_read=True, dial_delay=0, up_n=rng.choice([16, 3000, 70000]),
                  up_chunk=rng.choice([1000, 5000]), down_n=0, close_delay=0))
+    # hooked requests (a RequestHook intercepts: the ok response is written before the dial): hook with / without putback
+    # (the head of the client's payload, taken off the stream by the hook), with / without address rewrite, x dial ok / failed
+    # x fast open on / off; and a hook that aborts
+    def hooked(fo, fail, pb, rw, err=False):
+        up_n = rng.choice([pb, pb + 1, pb + 700, pb + 5000]) if pb else rng.choice([0, 16, 3000])
+        return mk(fastopen=fo, logger=rng.random() < 0.7, up_n=up_n, up_chunk=rng.choice([max(1, up_n), 700, 1199, max(1, pb)]),
+                  down_n=rng.choice([1, 3000, 33000]), down_chunk=rng.choice([1000, 9000]),
+                  dial_err=("connect: connection refused (verif %d)" % rng.randrange(10**6)) if fail else "",
+                  hook={"putback": pb, "rewrite": ("rewritten-%d.example:443" % rng.randrange(1000)) if rw else "", "err": err})
+    for fo in (False, True):
+        for fail in (False, True):
+            for pb in (0, rng.choice([1, 5, 52, 700, 1199, 3000])):
+                for rw in (False, True):
+                    cs.append(hooked(fo, fail, pb, rw))
+        cs.append(hooked(fo, False, rng.choice([0, 52]), rng.random() < 0.5, err=True))
     if tier != "quick":
+        for _ in range(40):
+            cs.append(hooked(rng.random() < 0.5, rng.random() < 0.5, rng.choice([0, 1, 52, 4096, 9000, rng.randrange(1, 40000)]),
+                             rng.random() < 0.5, err=rng.random() < 0.1))
         for _ in range(16):
             n = rng.choice([1, 16, 52, 1199, 4096, 40000, 200000, rng.randrange(1, 100000)])
             cs.append(mk(fastopen=rng.random() < 0.7, logger=rng.random() < 0.6, no_read=True, dial_delay=rng.choice([0, 10, 100, 300, 1000]),
@@ -527,8 +564,17 @@ def cli_case(c, o):
     if bsz < 100 and total > 6000:
         bsz = 100
     ok, msg, _ = parse_resp_frame(frame)
+    pauses = set()
+    for k in cl.get("pk", []):
+        if k == "pre":
+            pauses.add(0)
+        elif k == "post":
+            pauses.add(len(frame))
+        elif k == "data" and n > 0:
+            pauses.add(len(frame) + 1 + int(cl["cutr"] * 7919) % n)
     return {"k": "cli", "fo": cl["fo"], "addr": c["req"]["addr"], "frame": frame.hex(), "ok": ok, "msg": msg.decode("ascii"),
-            "a": c["down"]["a"], "b": c["down"]["b"], "n": n, "cut": cut, "chunks": cl["chunks"], "end": cl["end"], "bsz": bsz}
+            "a": c["down"]["a"], "b": c["down"]["b"], "n": n, "cut": cut, "chunks": cl["chunks"], "end": cl["end"], "bsz": bsz,
+            "pauses": sorted(pauses), "to": 20, "to2": 150}
 
 
 CLS = {"nil": 0, "dial": 100, "eof": 1, "short": 2, "invalid": 3, "reset": 4, "": 0}
@@ -546,10 +592,16 @@ def e2e_to_coq(c, o):
     co, cc = o.get("cli"), o.get("cli_case")
     if co and cc and not co.get("skip") and co.get("tcp") in CLS and co.get("final") in CLS:
         served = co["served"]
+        if co.get("pauses"):
+            cli = "(Some (CObsTo %s %d %d [%s] %d %s %d %d %d %s))" % (
+                "true" if cc["fo"] else "false", served, cc["bsz"], ";".join(str(x) for x in co["pauses"]),
+                CLS[co["tcp"]], cstr(co["tcp_msg"].encode()) if co["tcp"] == "dial" else '""%string', co["got"][0], co["got"][1],
+                CLS[co["final"]], cstr(co["final_msg"].encode()) if co["final"] == "dial" else '""%string')
         split = int(c["cli"]["splitr"] * (served + 1))
         if c["cli"]["splitr"] < 0.3:
             split = min(served, max(0, len(resp) + [-1, 0, 1][int(c["cli"]["splitr"] * 10) % 3]))
-        cli = "(Some (CObs %s %d %d %d %d %d %s %d %d %d %s))" % (
+        if not co.get("pauses"):
+          cli = "(Some (CObs %s %d %d %d %d %d %s %d %d %d %s))" % (
             "true" if cc["fo"] else "false", served, 0 if cc["end"] == "fin" else 1, split, cc["bsz"],
             CLS[co["tcp"]], cstr(co["tcp_msg"].encode()) if co["tcp"] == "dial" else '""%string', co["got"][0], co["got"][1],
             CLS[co["final"]], cstr(co["final_msg"].encode()) if co["final"] == "dial" else '""%string')
@@ -564,7 +616,14 @@ def e2e_to_coq(c, o):
 
 def to_coq(c, o):
     if c["k"] == "e2e":
-        return None       # level (b) is judged by the harness verdict only
+        # level (b) is judged by the harness verdict; the hooked requests that end without a relay (hook abort, failed dial)
+        # are also compared with the run of model/C06_Hook.v: the application reads no byte and its Reads end with EOF
+        hk = c.get("hook")
+        if hk and (c["dial_err"] or hk["err"]) and not o.get("skip") and not o.get("panic") and "recv" in o:
+            return "CHookFail %s %s %d %s %d %d" % ("true" if c["fastopen"] else "false", "true" if hk["err"] else "false",
+                                                    hk["putback"], cstr((c["dial_err"] or "aborted").encode()), o["recv"],
+                                                    1 if o.get("rerr") == "EOF" else 9)
+        return None
     if c["k"] == "xrelay":
         return xto_coq(c, o)
     if o.get("panic") or "trace" not in o:
@@ -585,6 +644,10 @@ def to_coq(c, o):
 def klass(c, o):
     if c["k"] == "e2e":
         kind = "dial-error" if c["dial_err"] else ("upload-noread" if c.get("no_read") else ("veto" if o.get("vetoed") else "data"))
+        hk = c.get("hook")
+        if hk:
+            kind = "hooked%s%s%s:" % ("+putback" if hk["putback"] else "", "+rewrite" if hk["rewrite"] else "", "+abort" if hk["err"] else "") + \
+                   ("dial-error" if c["dial_err"] else "data")
         return "e2e:%s:fo=%d:logger=%d%s" % (kind, c["fastopen"], c["logger"], ":SKIPPED" if o.get("skip") else "")
     f = o.get("facts") or {}
     if o.get("panic"):
@@ -595,7 +658,9 @@ def klass(c, o):
     tags = [c["k"] + ("+req" + (":glued" if c["req"]["glue"] else "") if c.get("req") else ""), c["mode"], "ret=" + str(o.get("ret"))]
     if c.get("e2e"):
         co = o.get("cli") or {}
-        tags.insert(1, "e2e:%s:cli=%s/%s" % ("dial-error" if c["e2e"]["dial_err"] else "relay", co.get("tcp", "-"), co.get("final", "-")))
+        tags.insert(1, "e2e:%s:cli=%s/%s%s" % ("dial-error" if c["e2e"]["dial_err"] else "relay", co.get("tcp", "-"), co.get("final", "-"),
+                                                 ":deadlines@" + ",".join("pre" if x == 0 else ("post" if x == len(o.get("resp_hex", "")) // 2 else "data")
+                                                                          for x in co["pauses"]) if co.get("pauses") else ""))
     if f.get("veto"):
         tags.append("veto" + ("U" if f.get("veto_U") else "") + ("D" if f.get("veto_D") else ""))
     if f.get("wfault_U") or f.get("wfault_D"):
@@ -720,7 +785,14 @@ def replay(ctx, path):
         return 1
     ok, outs, _, log = common.run_go_cases(ctx, GO_E2E if c.get("k") == "e2e" else GO, [c], tag="replay")
     print(json.dumps(outs, indent=1))
-    return 0 if outs and outs[0].get("ok") else 1
+    good = bool(outs and outs[0].get("ok"))
+    cc = (r["replay"].get("impl") or {}).get("cli_case")
+    if cc:
+        # the client half of an end-to-end case: the recorded history (response frame, data, pauses, deadlines) on the real client
+        ok2, outs2, _, log2 = common.run_go_cases(ctx, GO_CLI, [cc], tag="replay_cli")
+        print(json.dumps(outs2, indent=1))
+        good = good and bool(outs2 and outs2[0].get("ok"))
+    return 0 if good else 1
 
 
 LEVEL_TEXT = ("Machine-checked Coq theorems over a labelled transition system transcribed from copyBufferLog / copyTwoWayEx / copyTwoWay(io.Copy) and the "
